@@ -29,16 +29,20 @@ Non-trivial = at least two requests with different expected responses in flight 
 pub fn pool_request(k: u16) -> Vec<u8> {
     let paths = ["/a.txt", "/big.bin", "/page.html", "/page", "/sub/", "/sub/x.json", "/sub/deep/y.png", "/noext", "/link.txt", "/outdir/f.txt", "/", "/style.css", "/missing", "/noindex/", "/empty.bin", "/é.txt"];
     let i = k as usize;
-    match i % 14 {
-        0..=5 => format!("GET {} HTTP/1.1\r\nHost: localhost\r\n\r\n", paths[(i / 14) % paths.len()]).into_bytes(),
+    match i % 16 {
+        0..=5 => format!("GET {} HTTP/1.1\r\nHost: localhost\r\n\r\n", paths[(i / 16) % paths.len()]).into_bytes(),
         6 => format!("GET /big.bin HTTP/1.1\r\nRange: bytes={}-{}\r\n\r\n", (i * 37) % 60000, (i * 37) % 60000 + 100 + i % 900).into_bytes(),
         7 => format!("GET /big.bin HTTP/1.1\r\nRange: bytes=0-9, {}-{}, 69990-69999\r\n\r\n", 1000 + i % 500, 2000 + i % 700).into_bytes(),
-        8 => format!("HEAD {} HTTP/1.1\r\nOrigin: https://o{}.example\r\n\r\n", paths[(i / 14) % paths.len()], i).into_bytes(),
+        8 => format!("HEAD {} HTTP/1.1\r\nOrigin: https://o{}.example\r\n\r\n", paths[(i / 16) % paths.len()], i).into_bytes(),
         9 => format!("GET /form-get-method?field{}=value{}&other=x{} HTTP/1.1\r\n\r\n", i, i * 7, i).into_bytes(),
         10 => { let body = format!("name{}=content{}&second=s{}", i, i * 3, i); format!("POST /form-url-encoded-enctype-post-method HTTP/1.1\r\nContent-Type: application/x-www-form-urlencoded\r\nContent-Length: {}\r\n\r\n{}", body.len(), body).into_bytes() }
         11 => format!("GET /a.txt HTTP/1.1\r\nRange: bytes={}-{}\r\n\r\n", 20 + i % 10, 30 + i % 10).into_bytes(),
         12 => format!("OPTIONS /a.txt HTTP/1.1\r\nOrigin: https://p{}.example\r\nAccess-Control-Request-Method: PUT\r\nAccess-Control-Request-Headers: x-h{}\r\n\r\n", i, i).into_bytes(),
-        _ => format!("garbage-{}\r\n\r\n", i).into_bytes(),
+        13 => format!("garbage-{}\r\n\r\n", i).into_bytes(),
+        // methods the static controller does not serve, on paths that other requests of the same multiset fetch with GET: whatever one request
+        // leaves behind for a path must not change the answer to another
+        14 => format!("{} {} HTTP/1.1\r\nHost: localhost\r\nContent-Length: 0\r\n\r\n", ["POST", "PUT", "DELETE", "PATCH"][(i / 16) % 4], paths[(i / 64) % paths.len()]).into_bytes(),
+        _ => format!("{} {} HTTP/1.1\r\nHost: localhost\r\n\r\n", ["POST", "DELETE", "TRACE", "CONNECT"][(i / 16) % 4], ["/a.txt", "/page", "/sub/", "/"][(i / 64) % 4]).into_bytes(),
     }
 }
 
